@@ -28,17 +28,22 @@ Inductive item := Own (e : err) | Req (t : file) (e : err).
    unhidden and watched_dirty); all false = the code before any fix: commit *)
 Record fixes := { fix12a : bool; fix12b : bool; fix_index : bool; fix_empty : bool;
                   fix_unhidden : bool;     (* fixes/C08-unhidden.diff: fileChangeCleanMap, re-hidden by pushAllDiagnosticsAgain *)
-                  fix_watched : bool }.    (* fixes/C08-watched-dirty.diff: a watched-file event keeps the live entries *)
+                  fix_watched : bool;      (* fixes/C08-watched-dirty.diff: a watched-file event keeps the live entries *)
+                  fix_outside : bool }.    (* fixes/C08-outside-file.diff: a file outside the workspace joins / leaves the
+                                              project like any other file (full re-analysis on didOpen and didClose) *)
 Definition no_fix : fixes := {| fix12a := false; fix12b := false; fix_index := false; fix_empty := false;
-                                fix_unhidden := false; fix_watched := false |}.
+                                fix_unhidden := false; fix_watched := false; fix_outside := false |}.
 Definition all_fix : fixes := {| fix12a := true; fix12b := true; fix_index := true; fix_empty := true;
-                                 fix_unhidden := true; fix_watched := true |}.
+                                 fix_unhidden := true; fix_watched := true; fix_outside := true |}.
 (* the code of round 1: fix: commits 0734f52 12a, af1552a 12b, 85b8991 empty shortcut, ec76861 index *)
 Definition round1 : fixes := {| fix12a := true; fix12b := true; fix_index := true; fix_empty := true;
-                                fix_unhidden := false; fix_watched := false |}.
-(* the repairs that are in /repo now: round 1 + fixes/C08-unhidden.diff + fixes/C08-watched-dirty.diff *)
+                                fix_unhidden := false; fix_watched := false; fix_outside := false |}.
+(* round 1 + fixes/C08-unhidden.diff + fixes/C08-watched-dirty.diff *)
+Definition round2 : fixes := {| fix12a := true; fix12b := true; fix_index := true; fix_empty := true;
+                                fix_unhidden := true; fix_watched := true; fix_outside := false |}.
+(* the repairs that are in /repo now: all seven *)
 Definition deployed : fixes := {| fix12a := true; fix12b := true; fix_index := true; fix_empty := true;
-                                  fix_unhidden := true; fix_watched := true |}.
+                                  fix_unhidden := true; fix_watched := true; fix_outside := true |}.
 
 (* file sets: fmem / fadd / frem are in Model/Diag.v *)
 Definition fset_of (l : list file) : list file := fold_right fadd [] l.
@@ -198,14 +203,14 @@ Section Model.
       | KCreated =>
         let p' := {| p_files := fadd f (p_files p); p_index := fadd f (p_index p); p_fsm := p_fsm p;
                      p_lru := p_lru p; p_tincl := p_tincl p; p_terrs := p_terrs p |} in
-        if (in_dir A) f
+        if (in_dir A) f || fix_outside fx
         then (p', {| h_again := h_again h ++ [f]; h_refer := fadd f (h_refer h); h_all := true; h_third := true |})
         else (p', {| h_again := h_again h ++ [f]; h_refer := h_refer h; h_all := h_all h; h_third := h_third h |})
       | KChanged =>
         (p, {| h_again := h_again h ++ [f]; h_refer := h_refer h; h_all := h_all h; h_third := h_third h |})
       | KDeleted =>
         let p' := remove_file p f in
-        if (in_dir A) f
+        if (in_dir A) f || fix_outside fx
         then (p', {| h_again := h_again h; h_refer := fadd f (h_refer h); h_all := true; h_third := true |})
         else (p', h)
       end in
@@ -273,13 +278,19 @@ Section Model.
     let '(d2, ps2) := save_push_again (ds s1) f in
     ({| pj := pj s1; cache := cache s1; ds := d2 |}, ps1 ++ ps2).
 
-  (* TextDocumentDidClose. [fix12b] = proposed repair: re-push the full saved list of the closed file. *)
-  Definition did_close (s : server) (f : file) : server * list publish :=
+  (* TextDocumentDidClose. [fix12b] = repair: re-push the full saved list of the closed file. [fix_outside] = repair:
+     a file outside the workspace leaves the project through HandleFileEventChanges (Deleted), then pushAllDiagnosticsAgain. *)
+  Definition did_close (dk : amap txt) (s : server) (f : file) : server * list publish :=
     let p0 := set_lru (pj s) (frem f (p_lru (pj s))) in
     let '(d0, ps1) := clear_change (ds s) f in
     let d1 := unmark_clean d0 f in
     let ps1b := if fix12b fx then push_file_diag d1 f false else [] in
     if (in_dir A) f then ({| pj := p0; cache := adel (cache s) f; ds := d1 |}, ps1 ++ ps1b)
+    else if fix_outside fx then
+      let s2 := {| pj := p0; cache := adel (cache s) f; ds := remove_saved d1 f |} in
+      let '(p1, chg) := handle_events dk p0 [(f, KDeleted)] in
+      if chg then let '(s3, ps3) := push_again s2 p1 in (s3, ps1 ++ ps1b ++ clear_one f ++ ps3)
+      else ({| pj := p1; cache := cache s2; ds := ds s2 |}, ps1 ++ ps1b ++ clear_one f)
     else ({| pj := remove_file p0 f; cache := adel (cache s) f; ds := remove_saved d1 f |},
           ps1 ++ ps1b ++ clear_one f).
 
@@ -323,7 +334,7 @@ Section Model.
     | EOpen f t => let '(s, ps) := did_open (disk w) (sv w) f t in (mk (disk w) s, ps)
     | EChange f t => let '(s, ps) := did_change (sv w) f t in (mk (disk w) s, ps)
     | ESave f t => let '(s, ps) := did_save (disk w) (sv w) f t in (mk (disk w) s, ps)
-    | EClose f => let '(s, ps) := did_close (sv w) f in (mk (disk w) s, ps)
+    | EClose f => let '(s, ps) := did_close (disk w) (sv w) f in (mk (disk w) s, ps)
     | EWatched l => let '(s, ps) := did_watched (disk w) (sv w) l in (mk (disk w) s, ps)
     end.
 
